@@ -517,6 +517,17 @@ def rule_autoescape_writers(ck, px):
     stores = [s for s in q.walk_body(px.fi.node) if isinstance(s, ast.Assign) and (px.template + ".autoescape") in q.assigned_paths(s)]
     for s in stores:
         v = s.value
+        if isinstance(v, ast.IfExp):
+            # conditional expression: fold it for representative directive arguments
+            names_ = sorted(q.names_in(v))
+            if len(names_) != 1:
+                raise AnalysisError("autoescape directive: stored value not understood: %s" % q.unparse(s))
+            try:
+                res = {arg: q.fold(v, {names_[0]: arg}) for arg in ("None", "xhtml_escape", "none", "")}
+            except q.NotFoldable:
+                raise AnalysisError("autoescape directive: stored value not understood: %s" % q.unparse(s))
+            ck.ob(rid, px.fi, s, res["None"] is None and all(res[a] == a for a in ("xhtml_escape", "none", "")), "escaping is switched off only for the literal directive argument 'None' (other arguments are stored as given)", construct="autoescape value %s" % sorted((k, repr(x)) for k, x in res.items()))
+            continue
         if not isinstance(v, ast.Name):
             raise AnalysisError("autoescape directive: stored value not a local name: %s" % q.unparse(s))
         none_sets = [x for x in q.stores_to(px.fi.node, v.id) if isinstance(x, ast.Assign) and isinstance(x.value, ast.Constant) and x.value.value is None]
@@ -545,6 +556,13 @@ def rule_default_escape(ck):
     d = ck.repo.const(T, "_DEFAULT_AUTOESCAPE")
     name = d.value if isinstance(d, ast.Constant) and isinstance(d.value, str) else None
     ck.ob(rid, None, d, name is not None, "_DEFAULT_AUTOESCAPE is a function name", file=T)
+
+    def _dflt(e):
+        """canonical text of a stored value: the default constant by name or by (inlined) value"""
+        if q.dotted(e) == "_DEFAULT_AUTOESCAPE" or (isinstance(e, ast.Constant) and name is not None and e.value == name):
+            return "_DEFAULT_AUTOESCAPE"
+        return q.dotted(e)
+
     tg = ck.func(T, "Template.generate")
     dicts = [n for n in q.walk_body(tg.node) if isinstance(n, ast.Dict)]
     ns = None
@@ -558,11 +576,11 @@ def rule_default_escape(ck):
     if ap not in ti.params():
         raise AnalysisError("Template.__init__ has no autoescape parameter")
     for s in q.stores_to(ti.node, "self.autoescape"):
-        v = q.dotted(s.value)
+        v = _dflt(s.value)
         ck.ob(rid, ti, s, v in (ap, "loader.autoescape", "_DEFAULT_AUTOESCAPE"), "a template's autoescape is its argument, else its loader's, else the default")
     facts = must_facts(ti.cfg)
     for nd in ti.cfg.stmt_nodes(lambda nd: nd.kind == "stmt" and "self.autoescape" in q.assigned_paths(nd.ast)):
-        v = q.dotted(nd.ast.value)
+        v = _dflt(nd.ast.value)
         if v == "loader.autoescape":
             ck.ob(rid, ti, nd.ast, holds(facts[nd.id], "isinstance(%s, _UnsetMarker)" % ap, True) or holds(facts[nd.id], "%s is _UNSET" % ap, True), "the loader's setting is used only when no explicit argument was given")
         if v == "_DEFAULT_AUTOESCAPE":
@@ -577,7 +595,7 @@ def rule_default_escape(ck):
     for pc in pcalls:
         c_ = [c for c in q.calls(pc.ast) if q.is_call(c, "_parse")][0]
         ck.ob(rid, ti, c_, len(c_.args) >= 2 and q.dotted(c_.args[1]) == "self", "the text is parsed for this template object (directives write this template's setting)")
-    n_def = sum(1 for s in q.stores_to(ti.node, "self.autoescape") if q.dotted(s.value) == "_DEFAULT_AUTOESCAPE")
+    n_def = sum(1 for s in q.stores_to(ti.node, "self.autoescape") if _dflt(s.value) == "_DEFAULT_AUTOESCAPE")
     ck.ob(rid, ti, ti.node, n_def == 1, "without argument and loader the template escapes with the default", construct="default store count %d" % n_def)
     bl = ck.func(T, "BaseLoader.__init__")
     a = bl.node.args
@@ -586,7 +604,7 @@ def rule_default_escape(ck):
     if ap in names:
         i = names.index(ap) - (len(names) - len(a.defaults))
         dv = a.defaults[i] if i >= 0 else None
-    ck.ob(rid, bl, bl.node, q.dotted(dv) == "_DEFAULT_AUTOESCAPE", "a loader escapes with the default unless told otherwise", construct="BaseLoader autoescape default")
+    ck.ob(rid, bl, bl.node, dv is not None and _dflt(dv) == "_DEFAULT_AUTOESCAPE", "a loader escapes with the default unless told otherwise", construct="BaseLoader autoescape default")
     st = q.stores_to(bl.node, "self.autoescape")
     ck.ob(rid, bl, bl.node, len(st) == 1 and q.dotted(st[0].value) == ap, "the loader keeps the setting it was given", construct="self.autoescape = autoescape")
     # escape function
@@ -608,6 +626,19 @@ def run(ck):
 
     ck.repo = canonical(ck.repo, ['tornado/template.py', 'tornado/escape.py'], keep_names=('_DEFAULT_AUTOESCAPE',))
 
+    # function splitting: single-use private helpers of template.py are inlined first (vt.x_wsnorm)
+    from .. import x_wsnorm
+
+    try:
+        ck.repo = x_wsnorm.normalize(ck.repo, T, keep={"_parse", "_get_ancestors", "_generate_python", "_create_template"})
+    except (SyntaxError, RecursionError, ValueError) as e:
+        raise AnalysisError("normalisation of %s failed: %s" % (T, e))
+    # one level of delegation: private helpers the rules do not anchor on (also multi-use ones) are
+    # replaced by their bodies at the call sites (vt.x_inline); what cannot be inlined stays a call
+    # and is reported by guard_obligations below
+    from .. import x_inline
+
+    ck.repo = x_inline.inline_repo(ck.repo, [T], keep=['_parse', '_get_ancestors', '_generate_python', '_format_code', '_create_template'])
     guard_obligations(ck, ['_parse', '_get_ancestors', '_generate_python', '_format_code', '_create_template'])
     ck.rule("C20.escape-before-append", "_Expression.generate: on every path that is neither raw nor autoescape-None the value variable is rebound to <current template's autoescape>(value) after its last other rebinding and before the append line")
     ck.rule("C20.raw-sites", "raw expression nodes are constructed only for the raw directive and (_Module) the module directive; .raw is written only by the constructor; raw defaults to False")
